@@ -9,7 +9,7 @@ RULE = ("the real Balancer (n_jobs=1, default threshold) on corpus reactions (qu
         "columns of all rows + the seven statistics) and every row is checked by RDKit-only oracles.  Non-trivial: a row that some "
         "stage edited (water insertion, completion, MCS append) before it was declined, or a declined carbon-deficit row, or a solved "
         "row; distinct = distinct input reaction.")
-ASSUMPTIONS = ["H1/H2/H3 of C03_solved_rows_have_empty_or_absent_issue and C03_carbon_deficit_declined (impute needs an empty search issue; inserted water never balances; impute refuses carbon deficit) -- checked on the recorded answers of every batch", "oracle answers (decompose, carbon counts, can_parse, MCS state, impute_reaction, PostProcess, confidence) are recorded from the real run and are functions of the row's strings (conflicting recordings are counted as timing_unstable and excluded)",
+ASSUMPTIONS = ["H1/H2/H3 of C03_solved_rows_have_empty_or_absent_issue and C03_carbon_deficit_declined (impute needs an empty search issue; inserted water never balances; impute refuses carbon deficit) -- checked on the recorded answers of every batch; H1 and H3 are theorems for refined oracle records (modelled control flow of impute_reaction, replayed call by call), H2 is derived from the composition facts (A) well-formed dictionaries and (B) additivity for appended water, both checked on every recorded composition (C03_remaining_clauses_from_composition_facts)", "oracle answers (decompose, carbon counts, can_parse, MCS state, impute_reaction, PostProcess, confidence) are recorded from the real run and are functions of the row's strings (conflicting recordings are counted as timing_unstable and excluded)",
                "joblib runs in-process with n_jobs=1, so module-attribute wrappers observe every call"]
 TRUSTED = ["RDKit for the independent oracles"]
 METHODS = ("input-balanced", "rule-based", "mcs-based")
